@@ -3,6 +3,7 @@ package memory
 import (
 	"context"
 	"strings"
+	"sync"
 	"sync/atomic"
 
 	"go.miragespace.co/specter/spec/chord"
@@ -23,6 +24,9 @@ type kvValue struct {
 	simple   atomic.Pointer[[]byte]
 	lease    atomic.Uint64
 	children *skipset.StringSet
+	// listing the children has to observe a set that existed at one point in time:
+	// mutators of the (concurrency-safe) set share the lock, a listing takes it exclusively
+	childrenMu sync.RWMutex
 }
 
 func (v *kvValue) isDeleted() bool {
@@ -81,7 +85,9 @@ func (m *MemoryKV) Import(ctx context.Context, keys [][]byte, values []*protocol
 		v.simple.Store(&bytes)
 		v.lease.Store(values[i].GetLeaseToken())
 		for _, child := range values[i].GetPrefixChildren() {
+			v.childrenMu.RLock()
 			v.children.Add(string(child))
+			v.childrenMu.RUnlock()
 		}
 	}
 	return nil
